@@ -4,6 +4,12 @@ pub mod r1 {
 pub mod r0 {
     include!(concat!(env!("OUT_DIR"), "/rig0.rs"));
 }
+pub mod r3 {
+    include!(concat!(env!("OUT_DIR"), "/rig3.rs"));
+}
+pub fn main3() {
+    bvh::cli::main::<r3::R3>();
+}
 pub fn main1() {
     bvh::cli::main::<r1::R1>();
 }
